@@ -22,7 +22,7 @@ def gridDiscrete : Space → List (String × List Val)
     match e with
     | .dom (.cat cats _) => tail ++ [(k, dedupVals cats)]
     | .dom (.nn cats _ _) => tail ++ [(k, dedupVals cats)]
-    | .dom (.fin vals ..) => tail ++ [(k, vals)]
+    | .dom (.fin vals ..) => tail ++ [(k, dedupVals vals)]   -- list(OrderedDict.fromkeys(hp_range.values))
     | .const v => tail ++ [(k, [v])]
     | .dom (.int ..) => tail
     | .dom (.float ..) => tail
